@@ -76,7 +76,7 @@ theorem exBool_noInt : NoIntegerVars (exBool : Model (Ext K)).domain := by
 /-- C01 + C02 hold for whatever the pipeline returns on `exBool`. -/
 theorem exBool_compilesTo {t : K} (ht : 0 ≤ t) {n : Nat} {lm : LinModel (Ext K)}
     (h : Compile.linearize (exBool : Model (Ext K)) (.fin t) n = .ok lm) : CompilesTo exBool lm :=
-  compilesTo_of_compile ht h exBool_frag exBool_declOK (fun an _ => intRangesInBox_of_noInt exBool_noInt an)
+  compilesTo_of_compile ht h exBool_frag exBool_declOK (Or.inr exBool_noInt)
 
 /-- `x = y = 0` is an optimum of `exBool` with value 0. -/
 theorem exBool_srcOptimal : SrcOptimal (exBool : Model (Ext K)) (fun _ => 0) 0 := by
